@@ -228,6 +228,98 @@ theorem C02_lastPhase_mono (env : Env) (rules : List Rule) (tx : Tx) (c : Call) 
     · right; exact hc
     · left; rw [h2]; exact Nat.le_of_lt (h3 hc)
 
+/-! ## the first disruptive match is the one that interrupts -/
+
+/-- evaluating one rule either leaves the interruption as it was or sets one carrying that rule's id -/
+theorem evalOne_intr (env : Env) (all : List Rule) (phase : Nat) (r : Rule) (tx : Tx) :
+    (evalOne env all phase r tx).intr = tx.intr ∨ ∃ i, (evalOne env all phase r tx).intr = some i ∧ i.ruleId = r.id := by
+  unfold evalOne evalRule
+  have q := quiet_evalLinks env all r.id r.links { tx with matchedVars := {}, evalLog := tx.evalLog ++ [(phase, r.id)] }
+  rcases hh : evalLinks env all r.id r.links { tx with matchedVars := {}, evalLog := tx.evalLog ++ [(phase, r.id)] } with ⟨tx1, res⟩
+  rw [hh] at q
+  cases res with
+  | none => left; exact q.intr
+  | some ms =>
+    simp only
+    have hi1 : tx1.intr = tx.intr := q.intr
+    -- skip / skipAfter do not touch intr; runDisr sets it (if at all) with r.id; matchRule keeps it
+    have key : ∀ t : Tx, t.intr = tx.intr →
+        (runDisr r t).intr = tx.intr ∨ ∃ i, (runDisr r t).intr = some i ∧ i.ruleId = r.id := by
+      intro t ht
+      unfold runDisr interrupt
+      repeat' split
+      all_goals first
+        | (left; exact ht)
+        | (right; exact ⟨_, rfl, rfl⟩)
+    have hsk : ((if !r.skipAfter.isEmpty then
+        { (if r.skip > 0 then { tx1 with skip := r.skip } else tx1) with skipAfter := r.skipAfter }
+        else (if r.skip > 0 then { tx1 with skip := r.skip } else tx1))).intr = tx.intr := by
+      split <;> split <;> exact hi1
+    have := key _ hsk
+    split
+    · simpa [matchRule] using this
+    · exact this
+
+/-- **C02_first**: in a request or response phase that starts without an interruption, if the
+    phase ends interrupted then the interruption carries the id of the *last* rule the phase
+    evaluated: the first rule whose disruptive action takes effect interrupts, with its own id, and
+    (C02_interrupted_phase_stops) nothing is evaluated after it. -/
+theorem C02_first (env : Env) (all : List Rule) (phase : Nat) (hp : phase ≠ 5) (rs : List Rule) (tx : Tx)
+    (h0 : ∀ i, tx.intr = some i → tx.evalLog.getLast? = some (phase, i.ruleId)) :
+    ∀ i, (rulesLoop env all phase rs tx).intr = some i →
+      (rulesLoop env all phase rs tx).evalLog.getLast? = some (phase, i.ruleId) := by
+  induction rs generalizing tx with
+  | nil => simpa [rulesLoop] using h0
+  | cons r rs ih =>
+    by_cases hi : tx.intr.isSome = true
+    · rw [C02_interrupted_phase_stops env all phase (r :: rs) tx hi hp]; exact h0
+    · have hnone : tx.intr = none := by
+        cases h : tx.intr with
+        | none => rfl
+        | some i => simp [h] at hi
+      have evalCase : ∀ i, (rulesLoop env all phase rs (evalOne env all phase r tx)).intr = some i →
+          (rulesLoop env all phase rs (evalOne env all phase r tx)).evalLog.getLast? = some (phase, i.ruleId) := by
+        apply ih
+        intro i hi'
+        obtain ⟨e1, _⟩ := frame_evalOne_log env all phase r tx
+        rcases evalOne_intr env all phase r tx with h | ⟨j, hj, hid⟩
+        · rw [h, hnone] at hi'; cases hi'
+        · rw [hj] at hi'; cases hi'
+          rw [e1, hid]; simp
+      have same : ∀ t : Tx, t.intr = none →
+          ∀ i, (rulesLoop env all phase rs t).intr = some i →
+            (rulesLoop env all phase rs t).evalLog.getLast? = some (phase, i.ruleId) := by
+        intro t h1
+        apply ih
+        intro i hi'
+        rw [h1] at hi'; cases hi'
+      have base : ∀ t : Tx, t.intr = none → ∀ i, t.intr = some i → t.evalLog.getLast? = some (phase, i.ruleId) := by
+        intro t h1 i hi'
+        rw [h1] at hi'; cases hi'
+      rw [rulesLoop]
+      simp only [hnone, Option.isSome_none, Bool.false_and, Bool.false_eq_true, if_false]
+      split
+      · exact same tx hnone
+      · split
+        · exact same tx hnone
+        · split
+          · split
+            · first | exact same _ rfl | exact same _ hnone
+            · exact same tx hnone
+          · split
+            · first | exact same _ rfl | exact same _ hnone
+            · split
+              · exact base tx hnone
+              · split
+                · exact evalCase
+                · exact base tx hnone
+              · split
+                · exact base tx hnone
+                · split
+                  · first | exact base _ rfl | exact base _ hnone
+                  · exact evalCase
+              · exact evalCase
+
 /-! ## non-vacuity: a deny in phase 1, then every later call returns it -/
 def C02_demoEnv : Env := { op := fun _ _ _ => true, tf := fun _ v => (v, false, false) }
 def C02_deny : Rule := ⟨7, 1, [], [⟨[], none, [], false, []⟩], .deny, 0, 0, [], none, [], false, false⟩
